@@ -1037,8 +1037,12 @@ func c12RandSheet(r *rand.Rand, id int, delim bool) *c12Sheet {
 		if r.Intn(3) == 0 {
 			m.Sr = m.Sf
 		}
-		pf := []byte(c12RandSeq(r, 18+r.Intn(8)))
-		pr := []byte(c12RandSeq(r, 18+r.Intn(8)))
+		lpf, lpr := 18+r.Intn(8), 18+r.Intn(8)
+		if !sh.Indel && r.Intn(8) == 0 {
+			lpf = 33 + r.Intn(12) // beyond one 32-bit word of the matching automaton
+		}
+		pf := []byte(c12RandSeq(r, lpf))
+		pr := []byte(c12RandSeq(r, lpr))
 		if !sh.Indel && !delim && r.Intn(3) == 0 {
 			codes := "rymkswn"
 			pf[2+r.Intn(len(pf)-4)] = codes[r.Intn(len(codes))]
